@@ -543,6 +543,7 @@ class HistoryRun(object):
                                         "in the store and the refill re-issues them with new key pairs" % gone[:20]},
                                 None))
                     issued_hi = max(issued_hi, max(new_ids))
+                was_authed = authed
                 if op[0] == "connect":
                     connected, authed, conn_uploads = True, False, []
                 elif op[0] == "authed":
@@ -627,6 +628,18 @@ class HistoryRun(object):
                                      % (lost_now[:20], [l["stanza"] for l in self.ledger if i in l["ids"]]))
                             if op[0] == "restart" else "an offered, unconsumed key is no longer in the store"},
                             KNOWN_KEY2 if (i, val) in self.stale_consumed else
+                            KNOWN_KEY if self.reuse_seen else None))
+                if op[0] == "authed" and not op[1] and not before["passive"] and connected and hist_wf \
+                        and not conn_uploads and not was_authed:
+                    # the first login of a connection, in the mode the layer set up itself (non-passive): it offers
+                    # nothing, so nothing unconfirmed may be waiting in the store ("offered again at the next login")
+                    waiting = sorted([r[0], r[1]] for r in before["rows"] if not r[2])
+                    if waiting:
+                        self.problems.append(("oracle:reoffer", {
+                            "step": len(self.ops) - 1, "stored_unconfirmed": waiting, "offered": [],
+                            "not_offered": [k[0] for k in waiting],
+                            "what": "the layer itself set up a non-passive login although unconfirmed keys are stored: "
+                                    "they are not offered at this login"},
                             KNOWN_KEY if self.reuse_seen else None))
                 if op[0] == "authed" and op[1] and connected and hist_wf:
                     want = sorted([r[0], r[1]] for r in before["rows"] if not r[2])
@@ -944,6 +957,12 @@ def systematic():
         (3, [C, NP, ask, D, C, A, res, D, C, A]),
         # non-passive login, two confirmed key-count requests, then two passive logins
         (4, [C, NP, ask, res, ask, res, D, C, A, res, D, C, A, res]),
+        # a key-count request answered with a second upload while the login upload is still unanswered; only the
+        # login upload is confirmed (reboot): the other batch must be offered at the very next login
+        (4, [C, A, ask, {"op": "result", "pick": 0}, D, C, A, res, D, C, A]),
+        (4, [C, A, ask, {"op": "result", "pick": 0}, D, C, NP, D, C, A, res]),
+        (3, [C, A, ask, ask, {"op": "result", "pick": 0}, D, C, A, {"op": "result", "pick": 0}, D, C, A]),
+        (4, [C, A, ask, {"op": "result", "pick": 0}, D, C, D, C, A, res]),
         # the process is killed (restart = what the database file holds):
         #  ... while the upload of a later generation is on the wire, before its result
         (4, [C, A, res, D, C, A, R, C, A, res, D, C, A]),
